@@ -1710,7 +1710,8 @@ func runAll(t *vlib.T) {
 	// phase 5: a fault that is switched ON and OFF between renders on one engine (healthy, failing, failing,
 	// healthy, failing): a template replaced by a failing version and back (RegisterString with the cache on;
 	// the loader's source with the cache off and with cache + auto-reload), a loader / a callback that starts
-	// to fail. Quick: the flat corpus with the value / sequence forms that are also used for nesting.
+	// to fail. Quick: the flat corpus with the value / sequence forms that are also used for nesting, mode R;
+	// thorough: the whole flat corpus in R and D, the nested corpus of those forms in R.
 	seqModes := []string{"R"}
 	if t.Thorough() {
 		seqModes = []string{"R", "D"}
